@@ -354,6 +354,11 @@ func runC09(c *core.Ctx) {
 		for i := 0; i < steps; i++ {
 			if big != nil && i%7 == 2 {
 				k.PerturbMany(big)
+				if len(big) > 60 {
+					// many paths in one command, few file descriptors (40): restoring a file needs one at a time
+					w.Env = map[string]string{"VERIF_NOFILE": "40"}
+					defer func() { w.Env = nil }()
+				}
 				switch k.R.IntN(4) {
 				case 0:
 					k.goit("restore", ".")
